@@ -227,6 +227,7 @@ bool StepScript(InterpreterEnv& env)
             pend = script.end();
             env.curr_op_seq++;
             env.nOpCount = 0; // reset to avoid hitting limit prematurely!
+            env.altstack.clear(); // every script is evaluated with an alt stack of its own
             return true;
         }
         return set_error(serror, SCRIPT_ERR_BAD_OPCODE);
@@ -253,6 +254,7 @@ bool StepScript(InterpreterEnv& env)
             env.p2shstack = env.stack;
         }
         env.nOpCount = 0; // reset to avoid hitting limit prematurely!
+        env.altstack.clear(); // every script is evaluated with an alt stack of its own
         return true;
     }
 
